@@ -34,7 +34,7 @@ LEVEL_TEXT = ('Proved in Lean for token strings of every length: everything deri
               'relaxation switched on, everything derivable with one relaxation is derivable with all of them, and smiV2 <= smiV1 <= '
               'smiV1Relaxed (kernel-evaluated simulation on the regenerated productions + soundness theorem); a text accepted by parse under '
               'the strict lexer is, for every grammar simulating the tables\' grammar, still a sentence after scanning with the SMIv1-keyword '
-              'lexer unless it contains MAX or NetworkAddress; the synthesised class is independent of keyword order; both factories know the '
+              'lexer unless it contains MAX or NetworkAddress; the synthesised class is independent of keyword order; an option passed as false - known or not, anywhere among the keyword arguments - is an option not passed, a true unknown option is rejected, true known ones are accepted (factory model: C17_false_option_ignored, C17_unknown_rejected, C17_known_accepted, C17_factory_order_irrelevant; tied by random keyword lists against the members of the real class); both factories know the '
               'same nine option names. NOT proved: that PLY\'s LALR tables for the larger grammar produce the identical tree (no proof of LALR '
               'construction / conflict resolution), and the simulation for arbitrary subsets other than the chains above: both are covered by '
               'correspondence and by the oracle over generated option subsets and orders (partial). The documented breakages are checked by '
